@@ -11,7 +11,8 @@ Link family (property C07): TWO endpoints of the library talking to each other.
 
 Events (`Ev`):
 * `appSend s env m`     – the application of side `s` awaits `send_msg(m)`; `m` is an application message
-                          (`Ev.wf`: type outside the session-level set, no header / trailer tags);
+                          (`Ev.wf`: type outside the session-level set, no header / trailer tags except an explicit
+                          PossDupFlag(43) ≠ `Y` and OrigSendingTime(122));
 * `deliverNext to env`  – the next frame in flight towards `to` arrives and is handed to
                           `_process_message` by the reader loop (`Session.recv`); frames written in response
                           are appended to the opposite queue.  A frame arriving at an endpoint that has closed its
@@ -113,10 +114,15 @@ def hdrTags : List Nat :=
 def payloadOf (m : Msg) : String × List (Nat × String) :=
   (m.mtype, m.tags.filter fun p => !hdrTags.contains p.1)
 
+/-- a field an application may put into a message: no header / trailer tag, except an explicit PossDupFlag(43)
+other than `Y` and an OrigSendingTime(122) (both are overwritten / kept by the resend logic) -/
+def appTagOk (p : Nat × String) : Bool :=
+  !hdrTags.contains p.1 || (p.1 == tPossDupFlag && p.2 != "Y") || p.1 == tOrigSendingTime
+
 /-- an application message as the application hands it to `send_msg`: not one of the session-level types
-the resend logic never retransmits, and no header / trailer tags among its fields -/
+the resend logic never retransmits, and only fields an application may set (`appTagOk`) -/
 def isAppMsg (m : Msg) : Bool :=
-  !ConnEnum.noReplay.contains m.mtype && m.tags.all fun p => !hdrTags.contains p.1
+  !ConnEnum.noReplay.contains m.mtype && m.tags.all appTagOk
 
 /-- the Logon the initiator's application sends from `on_connect` -/
 def logonMsg (hb : Int) : Msg := Msg.mk' mLogon [(tEncryptMethod, "0"), (tHeartBtInt, pyStr hb)]
